@@ -24,6 +24,8 @@ def render(op, script):
     """The reply bytes in the record layout of the operation's own reply format."""
     out = b''
     for i, sid in enumerate(script, 1):
+        if sid == 'CLSE':
+            break                      # the device closes the stream here: nothing of the rest is ever sent
         p = PAY[i]
         if op == 'stat':
             # (id, mode, size, mtime); a FAIL carries its reason after a length in the last field
@@ -62,7 +64,7 @@ def run_row(mode, row, cuts=None):
         state['n'] += 1
         if op == 'pullcb' and state['n'] == 2:
             return None                       # the stat() a pull with a callback issues on a stream of its own (opened after the pull's): the ordinary service answers it
-        return simdev.RawSyncService(reply, cuts)
+        return simdev.RawSyncService(reply, cuts, then_close='CLSE' in script)
     dev.service_for = service_for
     dev.fs.add('/f', b'x' * 17)
     sess = env.Session(mode, dev, tick=0.001)
